@@ -24,7 +24,8 @@ ASSUMPTIONS = c01.ASSUMPTIONS + [
 ]
 
 SHAPES = ("create_create_same", "create_create_diff", "edit_edit", "edit_delete", "delete_delete", "rename_edit",
-          "rename_rename", "file_vs_folder", "mkdir_mkdir", "rmdir_create_inside")
+          "rename_rename", "file_vs_folder", "mkdir_mkdir", "rmdir_create_inside", "rmtree_create_inside", "rename_delete",
+          "dirmove_rmtree")
 
 
 def budget(tier):
